@@ -21,7 +21,7 @@ RULE = ('seeded schedules as in C09 with the trajectory sampling in place of the
         ' Round 3: every third schedule is run a second time with the same measurement / model objects and judged again.')
 ASSUMPTIONS = ['termination is decided as bounded progress: while-header visits <= 2 (rows + epochs in span) + 4, never by wall clock',
                'stamping of innovation rows with the sample time is not demanded by C10 (the filter stamps them with the row time)']
-REQUIRED_OBS = ['reruns_with_same_objects', 'schedules_with_permuted_tables', 'schedules_with_tiny_record', 'runs_completed', 'loop_iterations', 'hit_events', 'correct_events', 'schedules_with_clusters', 'schedules_with_gaps',
+REQUIRED_OBS = ['reruns_with_same_objects', 'schedules_with_permuted_tables', 'schedules_with_tiny_record', 'schedules_with_independent_triad_models', 'runs_completed', 'loop_iterations', 'hit_events', 'correct_events', 'schedules_with_clusters', 'schedules_with_gaps',
                 'schedules_without_measurements', 'time_step_below_sampling', 'time_step_equal_sampling', 'with_increments',
                 'offline_checks']
 REQUIRED_CLASSES = {'all': ['uniform', 'jitter', 'gaps']}
@@ -105,6 +105,7 @@ def run_case(case):
     obs['hit_events'] = sum(e['kind'] == 'compute_matrices' and e['hit'] for e in ev)
     obs['correct_events'] = sum(e['kind'] == 'correct' for e in ev)
     obs['process_matrix_events'] = sum(e['kind'] == 'process_matrices' for e in ev)
+    obs['schedules_with_independent_triad_models'] = int(bool(d.get('mixed_models')))
     obs['schedules_with_tiny_record'] = int(bool(d.get('tiny_record')))
     obs['schedules_with_permuted_tables'] = int(bool(d.get('tables_permuted')))
     obs['schedules_with_clusters'] = int(d['max_epochs_in_one_interval'] >= 2)
